@@ -834,3 +834,266 @@ func checkTypeSwitchArmsAssignSameVar(c *Ctx, rule string, fns []*ssa.Function) 
 	}
 	c.Floor(rule, "single-result type switches", n, 2)
 }
+
+// checkRequestFieldsFromSameNamedParams: CreateSimpleTx packs its arguments into the request handed to the
+// serialising goroutine. A field of that request that has a same-named parameter is filled from that parameter —
+// a neighbouring value of the same type (the change scope for the coin-selection scope) makes the transaction be
+// funded from a different key scope than the caller asked for.
+func checkRequestFieldsFromSameNamedParams(c *Ctx, rule string) {
+	fn := walletFn(c, rule, "CreateSimpleTx")
+	if fn == nil {
+		return
+	}
+	params := map[string]*ssa.Parameter{}
+	for _, prm := range fn.Params {
+		params[prm.Name()] = prm
+	}
+	n := 0
+	for _, b := range fn.Blocks {
+		for _, ins := range b.Instrs {
+			st, ok := ins.(*ssa.Store)
+			if !ok {
+				continue
+			}
+			fa, ok := st.Addr.(*ssa.FieldAddr)
+			if !ok {
+				continue
+			}
+			tn, f := fieldAddrName(fa)
+			if tn != "createTxRequest" {
+				continue
+			}
+			prm, ok := params[f]
+			if !ok {
+				continue
+			}
+			n++
+			v := stripConv(st.Val)
+			same := v == ssa.Value(prm)
+			if ld, ok := v.(*ssa.UnOp); ok && !same {
+				if dv := dominatingStoreVal(ld); dv != nil && stripConv(dv) == ssa.Value(prm) {
+					same = true
+				}
+				if al, ok := ld.X.(*ssa.Alloc); ok && isParamSpill(al) {
+					for _, s2 := range storesTo(al) {
+						if s2.Val == ssa.Value(prm) && len(storesTo(al)) == 1 {
+							same = true
+						}
+					}
+				}
+			}
+			c.Check(rule, "request-field-from-same-named-parameter:"+f, st.Pos(), same,
+				"CreateSimpleTx fills createTxRequest."+f+" from something other than its parameter "+f+": the request the serialising goroutine executes is not the one the caller made")
+		}
+	}
+	c.Floor(rule, "request fields with a same-named parameter", n, 4)
+}
+
+// checkWatchedAddressSetOnlyGrows: during recovery the branch's derived-address map is the only source of the
+// address set sent to the backend filter, and nothing re-derives below the horizon. The look-ahead bound limits
+// used indexes from ABOVE only (a low index can be paid late, or re-used), so the map must never lose entries
+// while a recovery is running: no delete on BranchRecoveryState.addresses anywhere.
+func checkWatchedAddressSetOnlyGrows(c *Ctx, rule string) {
+	p := c.P
+	n, nDel := 0, 0
+	for _, fn := range p.FuncsIn("wallet") {
+		if recvName(fn) != "BranchRecoveryState" {
+			continue
+		}
+		n++
+		for _, ci := range callsOf(fn) {
+			call, ok := ci.(*ssa.Call)
+			if !ok || calleeShort(&call.Call) != "delete" || len(call.Call.Args) == 0 {
+				continue
+			}
+			if tn, f, _, okf := fieldOf(stripConv(call.Call.Args[0])); okf && tn == "BranchRecoveryState" && f == "addresses" {
+				nDel++
+				c.Check(rule, "watched-address-set-only-grows:"+fn.Name(), call.Pos(), false,
+					"(*BranchRecoveryState)."+fn.Name()+" deletes derived addresses from the branch's watch set: an address used out of increasing order (paid late, or re-used) is no longer in the filter request and its transactions are never found")
+			}
+		}
+	}
+	if nDel == 0 {
+		c.Check(rule, "watched-address-set-only-grows", 0, true, "")
+	}
+	c.Floor(rule, "BranchRecoveryState methods", n, 5)
+}
+
+// checkFilterBlockVisitsEveryTx: FilterBlock hands every transaction of the block to FilterTx (outputs of a
+// coinbase can pay the wallet too).
+func checkFilterBlockVisitsEveryTx(c *Ctx, rule string) {
+	p := c.P
+	fb := p.Func("chain", "BlockFilterer", "FilterBlock")
+	if fb == nil {
+		c.Unresolved(rule, "chain.BlockFilterer.FilterBlock")
+		return
+	}
+	n := 0
+	for _, l := range loopsOf(fb) {
+		if l.Kind == "for" || !l.containsInstr(isCallNamed("FilterTx")) {
+			continue
+		}
+		n++
+		bad := l.MustPassPerIteration(p, isCallNamed("FilterTx"))
+		c.Check(rule, "every-block-transaction-filtered", l.Header.Instrs[0].Pos(), bad == "" && len(l.EarlyExits(p)) == 0,
+			"FilterBlock can skip a transaction of the block without handing it to FilterTx ("+bad+"): payments made by that transaction (e.g. a coinbase paying the wallet) are not found")
+	}
+	c.Floor(rule, "transaction loops in FilterBlock", n, 1)
+}
+
+// checkQueueStartedOnce: ConcurrentQueue.Start has no guard of its own; its one production user relies on its
+// own once-flag. After the queue has been started in a function, no path may re-arm that flag (store the "not
+// started" value into it) unless the queue was stopped in between — a failed-then-retried Start would run two
+// workers over one list and one pair of channels (order lost, items duplicated or dropped).
+func checkQueueStartedOnce(c *Ctx, rule string) {
+	p := c.P
+	qStart := p.Func("chain", "ConcurrentQueue", "Start")
+	qStop := p.Func("chain", "ConcurrentQueue", "Stop")
+	if qStart == nil || qStop == nil {
+		c.Unresolved(rule, "chain.ConcurrentQueue.Start/Stop")
+		return
+	}
+	n := 0
+	for _, cs := range p.callers(qStart) {
+		call, ok := cs.(*ssa.Call)
+		if !ok || strings.HasSuffix(p.Fset.Position(call.Pos()).Filename, "_test.go") {
+			continue
+		}
+		fn := call.Parent()
+		n++
+		q := &PathQuery{Fn: fn, Barrier: func(i ssa.Instruction) bool { return p.isCallTo(i, qStop) },
+			Target: func(i ssa.Instruction, _ *ssa.BasicBlock) bool {
+				// atomic.StoreInt32(&x.started, 0) / x.started = 0|false
+				switch x := i.(type) {
+				case *ssa.Call:
+					g := x.Call.StaticCallee()
+					if g != nil && g.Pkg != nil && g.Pkg.Pkg.Path() == "sync/atomic" && strings.HasPrefix(g.Name(), "Store") && len(x.Call.Args) == 2 {
+						if fa, ok := x.Call.Args[0].(*ssa.FieldAddr); ok {
+							if _, f := fieldAddrName(fa); f == "started" {
+								if k, ok := constInt(x.Call.Args[1]); ok && k == 0 {
+									return true
+								}
+							}
+						}
+					}
+				case *ssa.Store:
+					if fa, ok := x.Addr.(*ssa.FieldAddr); ok {
+						if _, f := fieldAddrName(fa); f == "started" {
+							if k, ok := constInt(x.Val); ok && k == 0 {
+								return true
+							}
+							if b, ok := constBool(x.Val); ok && !b {
+								return true
+							}
+						}
+					}
+				}
+				return false
+			}}
+		hits := q.From(call)
+		c.Check(rule, "started-flag-not-rearmed-after-queue-start:"+fnName(fn), call.Pos(), len(hits) == 0,
+			fnName(fn)+" re-arms its started flag after it has started the notification queue (without stopping the queue): a retried Start launches a second queue worker on the same list and channels")
+	}
+	c.Floor(rule, "production callers of ConcurrentQueue.Start", n, 1)
+}
+
+// checkNoQueueSendUnderClientMutex: the neutrino client's queue worker takes clientMtx at the top of every
+// iteration; a producer that sends into the queue's input channel while holding clientMtx can therefore wait
+// for a worker that waits for the mutex (and Stop needs the mutex too). Every send on enqueueNotification
+// happens with clientMtx released.
+func checkNoQueueSendUnderClientMutex(c *Ctx, rule string) {
+	p := c.P
+	n := 0
+	for _, fn := range p.FuncsIn("chain") {
+		if recvName(outermost(fn)) != "NeutrinoClient" {
+			continue
+		}
+		for _, b := range fn.Blocks {
+			for _, ins := range b.Instrs {
+				sends := false
+				switch x := ins.(type) {
+				case *ssa.Send:
+					if _, f, _, ok := fieldOf(stripConv(x.Chan)); ok && f == "enqueueNotification" {
+						sends = true
+					}
+				case *ssa.Select:
+					for _, st := range x.States {
+						if st.Dir == types.SendOnly {
+							if _, f, _, ok := fieldOf(stripConv(st.Chan)); ok && f == "enqueueNotification" {
+								sends = true
+							}
+						}
+					}
+				}
+				if !sends {
+					continue
+				}
+				n++
+				// may-hold: is there a path from a Lock of clientMtx to this send without an Unlock? (in this function and,
+				// for closures called synchronously, in the enclosing function at the call)
+				held := mayHoldAt(p, ins, "chain.NeutrinoClient.clientMtx", 0)
+				c.Check(rule, "queue-send-without-client-mutex:"+fnName(fn), ins.Pos(), !held,
+					fnName(fn)+" can send into the notification queue while holding clientMtx: the queue worker takes clientMtx on every iteration, so producer, worker and Stop can wait for each other forever")
+			}
+		}
+	}
+	c.Floor(rule, "sends into the neutrino notification queue", n, 5)
+}
+
+// mayHoldAt: some path reaches ins with mutex `key` locked (Lock/RLock seen, no Unlock since). For a closure that is
+// called directly by its parent (a local func value), continue at the call sites in the parent.
+func mayHoldAt(p *Program, ins ssa.Instruction, key string, depth int) bool {
+	fn := ins.Parent()
+	// backward search over the CFG from ins
+	type pt struct {
+		b   *ssa.BasicBlock
+		idx int
+	}
+	seen := map[*ssa.BasicBlock]bool{}
+	var visit func(b *ssa.BasicBlock, from int) bool
+	visit = func(b *ssa.BasicBlock, from int) bool {
+		for i := from; i >= 0; i-- {
+			k, op := lockOp(b.Instrs[i])
+			if strings.TrimSuffix(k, "(R)") == key {
+				if op == 1 {
+					return true
+				}
+				if op == -1 {
+					return false
+				}
+			}
+			// deferred unlock registered earlier does not release before ins
+		}
+		for _, pr := range b.Preds {
+			if seen[pr] {
+				continue
+			}
+			seen[pr] = true
+			if visit(pr, len(pr.Instrs)-1) {
+				return true
+			}
+		}
+		if len(b.Preds) == 0 && fn.Parent() != nil && depth < 3 {
+			// entry of a closure: look at direct calls of the closure value in the parent
+			for _, pb := range fn.Parent().Blocks {
+				for _, pi := range pb.Instrs {
+					call, ok := pi.(*ssa.Call)
+					if !ok {
+						continue
+					}
+					isThis := false
+					for _, o := range (&Slicer{P: p}).Origins(call.Call.Value) {
+						if mc, ok := o.(*ssa.MakeClosure); ok && mc.Fn == fn {
+							isThis = true
+						}
+					}
+					if isThis && mayHoldAt(p, call, key, depth+1) {
+						return true
+					}
+				}
+			}
+		}
+		return false
+	}
+	return visit(ins.Block(), instrIndex(ins)-1)
+}
